@@ -1055,7 +1055,7 @@ func init() {
 	reg.Prop(&reg.Property{
 		ID:    "C20",
 		Level: "fault_enumeration",
-		Rule: "for each of 52 client operations (Client and File methods, multi-chunk paths in their sequential and concurrent variants, composites MkdirAll/RemoveAll/Glob/Walk; P=4, K=2, 10-byte file) and each reply of its honest conversation: " +
+		Rule: "for each of 54 client operations (Client and File methods, multi-chunk paths in their sequential and concurrent variants, composites MkdirAll/RemoveAll/Glob/Walk; P=4, K=2, 10-byte file) and each reply of its honest conversation: " +
 			"cut at byte offsets then EOF; frame length (also 256Ki+1, 16Mi) and every inner length/count field <- {0,1,n-1,n+1,2^31-1,2^32-1}; reply truncated at byte offsets with the frame length adjusted; extra bytes inside the frame; a valid reply of every other type; type byte replaced; wrong id; frames with bodies of length <= 2; " +
 			"one reply mutated, follow-ups answered honestly; distinct = distinct (operation, reply, mutation)",
 		Assumptions: []string{
@@ -1072,7 +1072,7 @@ func init() {
 				}
 			}
 			return []reg.Job{
-				{Part: "C20/replies", Build: "instr", Args: map[string]string{"subset": "quick"}, Shards: 16, BudgetS: 100, Label: "all operations, covering subset"},
+				{Part: "C20/replies", Build: "instr", Args: map[string]string{}, Shards: 16, BudgetS: 100, Label: "all operations, all cuts, covering set of tiny bodies"},
 			}
 		},
 	})
